@@ -89,6 +89,90 @@ fn paused_rt() -> tokio::runtime::Runtime {
   tokio::runtime::Builder::new_current_thread().enable_all().start_paused(true).build().unwrap()
 }
 
+/// (rotation) one sender, every peer always ready, peers added and removed between sends: round-robin means that
+/// between two consecutive deliveries to the same peer every other peer that was a member the whole time in between
+/// receives exactly one message - whatever position a new peer joins at. A removal must not make the rotation skip
+/// an idle peer or serve one twice in a row.
+fn rotation_case(rep: &mut Report, rng: &mut Rng) {
+  let rt = paused_rt();
+  let log: Arc<parking_lot::Mutex<Vec<(String, u64)>>> = Arc::new(parking_lot::Mutex::new(vec![]));
+  let orch = Arc::new(Orchestrator::new());
+  let use_balancer_sync = rng.chance(1, 2);
+  let mut members: Vec<String> = vec![];
+  // membership intervals: name -> (joined at log length, left at log length)
+  let mut joined: HashMap<String, usize> = HashMap::new();
+  let mut left: HashMap<String, usize> = HashMap::new();
+  let n0 = rng.range(2, 5);
+  let mut next_peer = 0;
+  for _ in 0..n0 {
+    let name = format!("r{}", next_peer);
+    next_peer += 1;
+    orch.add_connection(&name, mk_peer(&name, &log, None));
+    joined.insert(name.clone(), 0);
+    members.push(name);
+  }
+  let nops = rng.range(10, 60);
+  let mut ops: Vec<String> = vec![];
+  let mut sent = 0u64;
+  rt.block_on(async {
+    for _ in 0..nops {
+      match rng.below(10) {
+        0 => {
+          let name = format!("r{}", next_peer);
+          next_peer += 1;
+          orch.add_connection(&name, mk_peer(&name, &log, None));
+          joined.insert(name.clone(), log.lock().len());
+          members.push(name.clone());
+          ops.push(format!("add {}", name));
+        }
+        1 | 2 => {
+          if members.len() > 1 {
+            let k = rng.below(members.len() as u64) as usize;
+            let name = members.remove(k);
+            orch.remove_connection(&name);
+            left.insert(name.clone(), log.lock().len());
+            ops.push(format!("remove {}", name));
+          }
+        }
+        _ => {
+          let ok = if use_balancer_sync && sent % 2 == 1 { orch.try_route_sync(batch(sent)).is_ok() } else { orch.route_message(batch(sent), true).await.is_ok() };
+          if ok {
+            sent += 1;
+          }
+          ops.push("send".into());
+        }
+      }
+    }
+  });
+  let log = log.lock().clone();
+  rep.case(&("rotation", n0, nops, ops.len(), sent), log.len() >= 4);
+  rep.count("rotation_deliveries", log.len() as u64);
+  // oracle
+  let present_throughout = |q: &str, from: usize, to: usize| -> bool { joined.get(q).map_or(false, |j| *j <= from) && left.get(q).map_or(true, |l| *l >= to) };
+  let mut last_seen: HashMap<String, usize> = HashMap::new();
+  for (i, (p, _)) in log.iter().enumerate() {
+    if let Some(&prev) = last_seen.get(p) {
+      // window (prev, i): every peer present during the whole window [prev, i] got exactly one delivery
+      for q in joined.keys() {
+        if q == p || !present_throughout(q, prev, i + 1) {
+          continue;
+        }
+        let c = log[prev + 1..i].iter().filter(|(x, _)| x == q).count();
+        if c != 1 {
+          let seq: Vec<String> = log[prev..=i].iter().map(|(x, _)| x.clone()).collect();
+          rep.violation(
+            format!("rotation_broken|{}", if c == 0 { "idle_peer_skipped" } else { "peer_served_more_than_once_per_round" }),
+            format!("round-robin broken: between two consecutive deliveries to {} the peer {} - a member the whole time, always ready - received {} messages (deliveries {:?}; last operations {:?})", p, q, c, seq, ops.iter().rev().take(10).rev().collect::<Vec<_>>()),
+            json!({"deliveries": log.iter().map(|(x, _)| x.clone()).collect::<Vec<_>>(), "ops": ops}),
+          );
+          return;
+        }
+      }
+    }
+    last_seen.insert(p.clone(), i);
+  }
+}
+
 /// Several sender tasks wait for a FIRST peer (no connection yet); one peer is added: every waiting send must go
 /// through, in virtual time (paused clock: if only some are woken the rest stay parked until the scripted deadline).
 fn first_peer_case(rep: &mut Report, rng: &mut Rng) {
@@ -530,6 +614,7 @@ fn main() {
         fairness_case(&mut rep, &mut rng);
         readiness_case(&mut rep, &mut rng);
         churn_case(&mut rep, &mut rng);
+        rotation_case(&mut rep, &mut rng);
         if i % 4 == 0 {
           first_peer_case(&mut rep, &mut rng);
         }
